@@ -83,7 +83,7 @@ func checkC05(c *Ctx, r *Report) {
 			Why:          "the validator string of a parameter is the annotation's `validate` property as written (appendParamRequiredValidation only adds `required`)"})
 		ruleHelperShape(c, r, "C05.e", helperShape{Fn: "core/metadata.appendParamRequiredValidation",
 			AllowedCalls: []string{"strings.Split"}, MustConsts: []string{",", "required"},
-			Why:          "`required` is appended to the written rules, which are otherwise left as they are"})
+			Why: "`required` is appended to the written rules, which are otherwise left as they are"})
 	}()
 	defer func() { ruleRegexInventory(c, r, "C05.a", "core/metadata", "core/annotations") }()
 	r.NotDecided = append(r.NotDecided, "value round-tripping through five HTTP frameworks (header canonicalisation, percent-decoding, integer widths beyond the strconv bit size spelled in the template)", "the conversion switch beyond arm coverage and bit sizes")
